@@ -215,7 +215,9 @@ class TheJoker:
         if isinstance(prior_samples, int):
             # If an integer, generate that many prior samples first
             N = prior_samples
-            prior_samples = self.prior.sample(size=N, return_logprobs=return_logprobs)
+            prior_samples = self.prior.sample(
+                size=N, return_logprobs=return_logprobs, rng=self.rng
+            )
 
         if in_memory:
             if isinstance(prior_samples, JokerSamples):
